@@ -99,6 +99,7 @@ func (vc *VC) runLemma(lm *Lemma, sp *ssa.Package) {
 	lw := "((as const (Array Int Int)) 0)"
 	vc.setHeap(fr.st, lockW, lockSort, lw)
 	vc.setHeap(fr.st, lockR, lockSort, lw)
+	vc.setHeap(fr.st, lockRel, lockSort, lw)
 	fr.entry = fr.st.clone()
 	vars := map[string]*Val{}
 	nq := 100
